@@ -17,6 +17,8 @@ Min2(a, b) == IF a < b THEN a ELSE b
 
 \* next multiple of a (a >= 1) at or above o
 AlignUp(o, a) == o + ((a - (o % a)) % a)
+\* alignment inside a structure is relative to the structure's first byte (as its field offsets are), wherever that is in the stream
+AlignRel(p, start, a) == start + AlignUp(p - start, a)
 
 SetMax(S) == CHOOSE x \in S : \A y \in S : y <= x
 SetMin(S) == CHOOSE x \in S : \A y \in S : x <= y
